@@ -289,6 +289,61 @@ def run_env(cfg, sid, transport, ka, latency, reject, seed):
     return n, vio
 
 
+def job_neighbour(j):
+    """A setting written on an object reaches THAT model's registers also when another object of the same family but
+    another model class was detected and used in the process meanwhile.  The definitions (type, address) valid for the
+    object are taken before the neighbour exists."""
+    cfg, seed = j
+    from ..configs import configure_neighbour
+    r = make_rig(cfg, 'udp', fill=lambda a: ((a * 40503 + seed * 31 + 7) & 0xFFFF) % 60000)
+    inv, dev = r.inv, r.dev
+    if r.call(inv.read_device_info)[0] != 'ok':
+        return 0, []
+    defs = {s.id_: (s, type(s).__name__, s.offset) for s in inv.settings() if in_scope(cfg, s)}
+    configure_neighbour(cfg)
+    vio = []
+    n = 0
+    seen_types = set()
+    for sid, (s0, t, off) in defs.items():
+        if t in seen_types and sid not in ('grid_export_limit', 'battery_discharge_depth', 'work_mode', 'eco_mode_1'):
+            continue
+        seen_types.add(t)
+        cur = inv._settings.get(sid)
+        if cur is None or (type(cur).__name__, cur.offset) != (t, off):
+            vio.append((f'definition-changed-by-another-object/{t}', f'{sid}: {t}@{off} before, '
+                        f'{type(cur).__name__ + "@" + str(cur.offset) if cur is not None else None} after another object was detected', sid))
+        vals = domain(s0, False)
+        v = vals[len(vals) // 2]
+        nregs = (refdec.size_of(s0) + 1) // 2 if t not in ('ByteH', 'ByteL') else 1
+        prior = dev.rf.getbytes(off, nregs)
+        w0 = len(dev.writes)
+        res = r.call(inv.write_setting, sid, v)
+        n += 1
+        vs = v.hex() if isinstance(v, bytes) else str(v)
+        if res[0] != 'ok':
+            vio.append((f'write-succeeds/{t}/with-neighbour', f'write_setting({sid!r}, {vs}) -> {res[1:]}', sid))
+            continue
+        want = refdec.encode(s0, v, prior)
+        ws = dev.writes[w0:]
+        if len(ws) != 1 or ws[0][1] != off or bytes(ws[0][2]) != want:
+            vio.append((f'writes-own-registers/{t}/with-neighbour', f'{sid}={vs}: inverter saw {[(w[0], w[1], bytes(w[2]).hex()) for w in ws][:2]}, '
+                                                                    f'expected one write of {want.hex()} at {off}', sid))
+        back = r.call(inv.read_setting, sid)
+        if not isinstance(v, bytes) and t not in ('Decimal', 'Voltage', 'Current', 'CurrentS') and \
+                not (back[0] == 'ok' and (refdec.same(back[1], v) or back[1] == v)):
+            vio.append((f'reads-back/{t}/with-neighbour', f'{sid}: wrote {vs}, read back {str(back)[:60]}', sid))
+    out = {}
+    for key, cause, sid in vio:
+        kk = f"{key}/{cfg['name']}"
+        out.setdefault(kk, []).append(dict(key=kk, clause=key.split('/')[0], replay=dict(part='neighbour', cfg=cfg, seed=seed),
+                                           detail=dict(cause=cause, setting=sid)))
+    res = []
+    for key, lst in out.items():
+        lst[0]['n'] = len(lst)
+        res.append(lst[0])
+    return n, res
+
+
 def job_env(j):
     cfg, sid, transport, ka, latency, reject, seed = j
     n, vio = run_env(cfg, sid, transport, ka, latency, reject, seed)
@@ -370,6 +425,10 @@ def run(tier, seed, rep):
                     if transport == 'udp' or tier == 'thorough':
                         for code in (3, 4, 6):
                             ejobs.append((cfg, sid, transport, ka, 0.001, code, seed))
+    nnb = 0
+    for n, res in pmap(job_neighbour, [(c, seed) for c in settings_configs()]):
+        nnb += n
+        rep.add_many(res)
     nenv = 0
     for n, res in pmap(job_env, ejobs, chunksize=4):
         nenv += n
@@ -380,7 +439,7 @@ def run(tier, seed, rep):
         total += n
         ne += e
         rep.add_many(res)
-    cov = dict(environment_runs=nenv, api_session_histories=_api['histories'], api_session_states=_api['states'],
+    cov = dict(writes_with_a_neighbour_object=nnb, environment_runs=nenv, api_session_histories=_api['histories'], api_session_states=_api['states'],
                states=max(ne, 1), transitions=max(total, 1), executions=total, traces_validated_against_impl=total,
                settings_jobs=len(jobs), distinct_encodings_written=ne, exhaustive=(tier == 'thorough'),
                bound='every setting of ET (eco v1 / v2 / 745 variants), DT (single / three phase) and the register-addressed ES '
@@ -408,6 +467,9 @@ def replay(r):
     cfg['refused'] = tuple(cfg['refused'])
     if 'firmware' in cfg and isinstance(cfg['firmware'], dict):
         cfg['firmware'] = bytes.fromhex(cfg['firmware']['hex'])
+    if r.get('part') == 'neighbour':
+        n, res = job_neighbour((cfg, r['seed']))
+        return dict(writes=n, violations=[(v['key'], v['detail']['cause']) for v in res])
     if r.get('part') == 'env':
         n, vio = run_env(cfg, r['sid'], r['transport'], r['ka'], r['latency'], r['reject'], r['seed'])
         return dict(evaluations=n, violations=[(a, b) for a, b, c in vio])
